@@ -127,10 +127,12 @@ abbrev Vars := List (String × VarVal)
 
 /-- Decimal integer literal `-?[0-9]+` (what `big.Int.SetString(s, 10)` accepts
     among JSON number literals). -/
+def digitsToNat (ds : List Char) : Nat := ds.foldl (fun acc c => acc * 10 + (c.toNat - 48)) 0
+
 def intLit? (s : String) : Option Int :=
   match s.toList with
-  | '-' :: ds => if !ds.isEmpty && ds.all Char.isDigit then s.toInt? else none
-  | ds => if !ds.isEmpty && ds.all Char.isDigit then s.toInt? else none
+  | '-' :: ds => if !ds.isEmpty && ds.all Char.isDigit then some (-(digitsToNat ds : Int)) else none
+  | ds => if !ds.isEmpty && ds.all Char.isDigit then some (digitsToNat ds : Int) else none
 
 /-- Value of `m · 2^e` when it is an integer. -/
 def floatInt? (m e : Int) : Option Int :=
@@ -364,6 +366,26 @@ def resolveTreeList (leaf : Op → String → Val → Except TErr Val) :
       | .error e => .error e
       | .ok gs => .ok (g :: gs)
 end
+
+mutual
+/-- The template's tree with every leaf value replaced by `σ op key value`; the
+    `$and` / `$or` / `$not` structure, the operators and the keys are untouched. -/
+def substTree (σ : Op → String → Val → Val) : Filter → Filter
+  | .and fs => .and (substTreeList σ fs)
+  | .or fs => .or (substTreeList σ fs)
+  | .not f => .not (substTree σ f)
+  | .leaf op k v => .leaf op k (σ op k v)
+def substTreeList (σ : Op → String → Val → Val) : List Filter → List Filter
+  | [] => []
+  | f :: fs => substTree σ f :: substTreeList σ fs
+end
+
+/-- The value a leaf resolves to (the leaf's own value when resolution fails — only
+    used under the hypothesis that it does not). -/
+def resolvedValue (leaf : Op → String → Val → Except TErr Val) (op : Op) (k : String) (v : Val) : Val :=
+  match leaf op k v with
+  | .ok v' => v'
+  | .error _ => v
 
 /-- What the walk does on one leaf. -/
 def resolveLeaf (units : String → List Nat) (parseInt : String → Option Int) (schema : Schema)
